@@ -70,6 +70,9 @@ class Gen:
         return None
 
     def num(self, **kw):
+        if self.rng.random() < 0.06:
+            # a constant with a long mantissa (about 1.2345678, 0.7071068, 0.1000000): no digit may be lost on the way to the engine
+            return self.node(['Num'] + self.rng.choice([[1325570717, -30], [759250125, -30], [107374183, -30]]))
         return self.node(['Num'] + dy(self.rng, **kw))
 
     def beta(self, positive=False):
@@ -219,7 +222,10 @@ class Gen:
                 return self.node(['PowC'] + e, [self.small(d - 1)], 'real')
             if self.rng.random() < 0.5:
                 return self.node(['PowC'] + self.rng.choice([[-1, 0], [-1, 1]]), [self.pos(d - 1)], 'real')
-            return self.node(['PowC'] + self.rng.choice([[1, -1], [3, -1], [-1, -1], [5, -2]]), [self.pos(d - 1)], 'real')
+            # the last three: exponents with a long mantissa (0.333333333..., -0.66666666..., 3.14159274...): every digit of the
+            # constant must reach the engine
+            return self.node(['PowC'] + self.rng.choice([[1, -1], [3, -1], [-1, -1], [5, -2], [357913941, -30], [-1431655765, -31],
+                                                         [13176795, -22]]), [self.pos(d - 1)], 'real')
         if lt(0.04):
             return self.node(['Bin', 'Power'], [self.pos(d - 1), self.small(d - 2)], 'real')
         if lt(0.05):
@@ -316,6 +322,13 @@ def gen_case(rng, variables=True, max_depth=5, n_rows=3, exclude=()):
     # make sure the root is not a bare leaf too often
     if not tree['k'] and rng.random() < 0.8:
         tree = g.node(['Bin', 'Plus'], [tree, g.real(max_depth - 1)], 'real')
+    if rng.random() < 0.1:
+        # the constants -1.0 and -2.0 side by side (hash(-1.0) == hash(-2.0) in Python: constants must not be identified by hash),
+        # and one constant used twice as distinct objects
+        a, b = g.real(max(1, max_depth - 2)), g.real(max(1, max_depth - 2))
+        two = g.node(['Bin', 'Plus'], [g.node(['Bin', 'Times'], [g.node(['Num', -1, 0]), a], 'real'),
+                                       g.node(['Bin', 'Times'], [g.node(['Num', -1, 1]), b], 'real')], 'real')
+        tree = g.node(['Bin', 'Plus'], [tree, g.node(['Bin', 'Times'], [g.node(['Num', -1, 0]), two], 'real')], 'real')
     return {'tree': tree, 'betas': g.betas, 'rows': g.rows(n_rows) if variables else []}
 
 
